@@ -7,7 +7,8 @@
 (* with up to MaxDefects planted defects: per object a wrong / repeated /  *)
 (* missing / unknown / differently-cased element, an XML attribute, empty  *)
 (* text, an unparsable value / date / id / cardinality, a duplicate        *)
-(* sibling name, wrong nesting; and per file a structural corruption       *)
+(* sibling name, wrong nesting, value lists with layout whitespace only /   *)
+(* around every item; and per file a structural corruption       *)
 (* (truncation, dropped close tag, garbage, wrong root, wrong or missing   *)
 (* version).                                                               *)
 (***************************************************************************)
@@ -19,7 +20,7 @@ PropH == {"p1", "p2", "p3", "p4"}
 SecDefects == {"noname", "notype", "emptyname", "emptytype", "dupname", "unknown-child", "attr", "case-tag", "case-child", "repeat-name",
                "badcard", "badid", "wrong-nesting", "text-in-element", "noname-dupchild"}
 PropDefects == {"noname", "badvalue", "unknown-child", "attr", "case-tag", "repeat-value", "dupname", "badcard", "badid", "wrong-nesting",
-                "emptyvalue", "baddtype", "noname-badvalue"}
+                "emptyvalue", "baddtype", "noname-badvalue", "blanklist", "spacedlist"}
 DocDefects == {"unknown-child", "baddate", "attr", "prop-at-root", "badid"}
 Corruptions == {"truncate", "dropclose", "garbage", "wrongroot", "wrongversion", "noversion", "empty"}
 Init == g = [x \in SecH \cup PropH \cup {"d1", "file"} |-> "ok"] /\ n = 0
